@@ -463,8 +463,9 @@ pub fn id_fill(target: usize, rec: &mut Recorder) -> (String, Vec<String>) {
             _ => fails.push("unexpected first poll of a fresh response stream".into()),
         }
     }
-    rec.stat_n("mux.idfill.sends-ok", ids.len() as u64);
-    rec.stat_n("mux.idfill.sends-err(id-space)", errs as u64);
+    // (the number of failed attempts on the way depends on the real RNG: not recorded)
+    rec.stat_n("mux.idfill.ids-in-flight", ids.len() as u64);
+    let _ = errs;
     if ids.len() == 65_536 {
         // nothing is free: the next sends must all fail
         for _ in 0..20 {
